@@ -186,6 +186,10 @@ pub struct FailOp {
     pub kind: String,
     pub index: usize,
     pub sticky: bool,
+    /// when set, `index` is resolved at run time as this per-mille position among the operations of `kind` that the
+    /// fault-free run of the same case performs (so that the fault always lands inside the write)
+    #[serde(default)]
+    pub frac_pm: Option<u16>,
 }
 
 #[derive(Clone, Debug, PartialEq, Default, Serialize, Deserialize)]
